@@ -5,7 +5,6 @@ import (
 	"bytes"
 	"encoding/json"
 	"fmt"
-	"io"
 	"testing"
 	"time"
 
@@ -34,6 +33,10 @@ type Case struct {
 	// binaries of the given lengths filled with 'a', 'b', ... followed by Tail raw bytes
 	Big  []int  `json:"big,omitempty"`
 	Tail []byte `json:"tail,omitempty"`
+	// At is the io.ReaderAt the random-access decoder is given (zero value: *bytes.Reader):
+	// its concrete type, and whether it reports io.EOF together with the last bytes of the
+	// input or only on the next call (the io.ReaderAt contract allows both; short reads it forbids)
+	At chunkio.AtPlan `json:"at"`
 }
 
 // materialize builds the input of a symbolic (Big) case.
@@ -89,7 +92,7 @@ func checkCase(c Case, out *outcome) error {
 	k := wm.Kind(c.Type)
 
 	// ---- random-access decoder -------------------------------------------------
-	rd := binary.NewReader(bytes.NewReader(in))
+	rd := binary.NewReader(chunkio.NewAt(in, c.At))
 	v, off, err := rd.ReadValue(t, 0)
 	var raTree wm.W
 	raOK := false
@@ -132,11 +135,11 @@ func checkCase(c Case, out *outcome) error {
 	}
 
 	// ---- streaming reader under the drawn segmentation -----------------------
-	r := chunkio.New(in, c.Plan)
+	r, rpos := chunkio.Open(in, c.Plan)
 	sr := binary.Default.Reader(r)
 	sTree, sErr := bridge.StreamRead(sr, k)
 	sr.Close()
-	sConsumed := chunkio.PosOf(r)
+	sConsumed := rpos() // as the owner of the reader observes it
 	if sErr == nil {
 		out.stAccepted = true
 		if !out.raAccepted {
@@ -168,37 +171,26 @@ func checkCase(c Case, out *outcome) error {
 		if raOK {
 			want = int(off)
 		}
-		for _, seek := range []bool{false, true} {
-			p := c.Plan
-			p.Seekable = seek
-			rr := chunkio.New(in, p)
+		for _, p := range skipPlans(c.Plan) {
+			rr, rrpos := chunkio.Open(in, p)
 			ssr := binary.Default.Reader(rr)
 			err := ssr.Skip(t)
-			var pos int
-			if seek {
-				// position as the reader's owner would observe it
-				n, _ := rr.(io.Seeker).Seek(0, io.SeekCurrent)
-				pos = int(n)
-			} else {
-				pos = chunkio.PosOf(rr)
-			}
+			pos := rrpos() // position as the reader's owner observes it
 			ssr.Close()
 			kind := "stream"
-			if seek {
+			if p.IsSeeker() {
 				kind = "seek"
 			}
 			if err != nil {
-				return ev.Errf("skip/"+kind+"/error/"+k.String(), "decode succeeded (consumed %d) but Skip failed: %v", want, err)
+				return ev.Errf("skip/"+kind+"/error/"+k.String(), "decode succeeded (consumed %d) but Skip failed (%s): %v", want, p.Class(), err)
 			}
 			if pos != want {
-				return ev.Errf("skip/"+kind+"/length/"+k.String(), "decode consumed %d bytes but Skip consumed %d", want, pos)
+				return ev.Errf("skip/"+kind+"/length/"+k.String(), "decode consumed %d bytes (random-access over %s: %v) but Skip consumed %d (%s)", want, c.At.Class(), raOK, pos, p.Class())
 			}
 		}
 	} else {
 		// totality of Skip on rejected inputs: must return, value irrelevant
-		for _, seek := range []bool{false, true} {
-			p := c.Plan
-			p.Seekable = seek
+		for _, p := range skipPlans(c.Plan) {
 			ssr := binary.Default.Reader(chunkio.New(in, p))
 			_ = ssr.Skip(t)
 			ssr.Close()
@@ -212,6 +204,20 @@ func checkCase(c Case, out *outcome) error {
 		}
 	}
 	return nil
+}
+
+// skipPlans: Skip is tried over the drawn segmentation without and with Seek,
+// and over the drawn concrete source type if there is one.
+func skipPlans(plan chunkio.Plan) []chunkio.Plan {
+	p := plan
+	p.Src, p.Seekable = "", false
+	q := p
+	q.Seekable = true
+	ps := []chunkio.Plan{p, q}
+	if plan.Src != "" {
+		ps = append(ps, plan)
+	}
+	return ps
 }
 
 func run(t ev.TB, unit string, c Case) {
@@ -228,7 +234,7 @@ func run(t ev.TB, unit string, c Case) {
 	case out.stAccepted:
 		acc = "accepted-stream-only"
 	}
-	cls := []string{"src:" + c.Src, "outcome:" + acc, "type:" + wm.Kind(c.Type).String(), c.Plan.Class()}
+	cls := []string{"src:" + c.Src, "outcome:" + acc, "type:" + wm.Kind(c.Type).String(), c.Plan.Class(), c.At.Class()}
 	edited := false
 	for _, op := range c.Ops {
 		cls = append(cls, "mut:"+op.Kind+"/"+acc)
@@ -244,7 +250,7 @@ func run(t ev.TB, unit string, c Case) {
 	ev.Case(d, nontriv, cls...)
 	if nontriv {
 		ev.KeepSample(unit, d, func() interface{} {
-			m := map[string]interface{}{"input_hex": fmt.Sprintf("%x", clip(c.Input, 64)), "input_len": len(c.Input), "type": wm.Kind(c.Type).String(), "outcome": acc, "plan": c.Plan.Class()}
+			m := map[string]interface{}{"input_hex": fmt.Sprintf("%x", clip(c.Input, 64)), "input_len": len(c.Input), "type": wm.Kind(c.Type).String(), "outcome": acc, "plan": c.Plan.Class(), "readerat": c.At.Class()}
 			if len(c.Ops) > 0 {
 				m["mutations"] = fmt.Sprint(c.Ops)
 			}
@@ -270,7 +276,7 @@ func TestBigBinaries(t *testing.T) {
 		for i := 0; i < n; i++ {
 			sizes = append(sizes, rapid.SampledFrom([]int{mib - 1, mib, mib + 1, mib + 4096, mib + mib/2}).Draw(t, "size"))
 		}
-		c := Case{Type: byte(wm.KStruct), Plan: chunkio.GenPlan(t, "plan"), Src: "big-binaries", Big: sizes}
+		c := Case{Type: byte(wm.KStruct), Plan: chunkio.GenSrcPlan(t, "plan"), At: chunkio.GenAtPlan(t, "at"), Src: "big-binaries", Big: sizes}
 		if rapid.Bool().Draw(t, "trailing") {
 			c.Tail = rapid.SliceOfN(rapid.Byte(), 1, 8).Draw(t, "trail")
 		}
@@ -303,7 +309,7 @@ func TestRandomBytes(t *testing.T) {
 		} else {
 			in = rapid.SliceOfN(rapid.Byte(), 0, 48).Draw(t, "bytes")
 		}
-		run(t, "random-bytes", Case{Input: in, Type: genType(t, 0), Plan: chunkio.GenPlan(t, "plan"), Src: "random"})
+		run(t, "random-bytes", Case{Input: in, Type: genType(t, 0), Plan: chunkio.GenSrcPlan(t, "plan"), At: chunkio.GenAtPlan(t, "at"), Src: "random"})
 	})
 }
 
@@ -312,7 +318,7 @@ func TestMutated(t *testing.T) {
 	rapid.Check(t, func(t *rapid.T) {
 		k := wm.GenRootKind().Draw(t, "kind")
 		w := wm.Gen(t, k, wm.GenOpts{MaxDepth: rapid.IntRange(1, 5).Draw(t, "maxdepth")}, "w")
-		c := Case{Type: genType(t, k), Plan: chunkio.GenPlan(t, "plan")}
+		c := Case{Type: genType(t, k), Plan: chunkio.GenSrcPlan(t, "plan"), At: chunkio.GenAtPlan(t, "at")}
 		if rapid.IntRange(0, 5).Draw(t, "unmutated") == 0 {
 			c.Input, c.Src = refcodec.Encode(w), "valid"
 			if rapid.Bool().Draw(t, "trailing") {
@@ -336,9 +342,9 @@ func TestTruncateEverywhere(t *testing.T) {
 		if len(enc) > 300 {
 			enc = enc[:300]
 		}
-		plan := chunkio.GenPlan(t, "plan")
+		plan, at := chunkio.GenSrcPlan(t, "plan"), chunkio.GenAtPlan(t, "at")
 		for i := 0; i <= len(enc); i++ {
-			run(t, "truncate-all", Case{Input: enc[:i], Type: byte(k), Plan: plan, Src: "truncated", Ops: []mutate.Op{{Kind: "truncate", Off: i}}})
+			run(t, "truncate-all", Case{Input: enc[:i], Type: byte(k), Plan: plan, At: at, Src: "truncated", Ops: []mutate.Op{{Kind: "truncate", Off: i}}})
 		}
 	})
 }
@@ -357,6 +363,12 @@ func FuzzReadValue(f *testing.F) {
 			return
 		}
 		c := Case{Input: in, Type: ty, Plan: chunkio.Plan{Rest: int(chunk % 8)}, Src: "fuzz"}
+		if chunk&8 != 0 {
+			c.At = chunkio.AtPlan{Src: chunkio.SrcPlainAt, EagerEOF: chunk&16 != 0}
+		}
+		if chunk&32 != 0 {
+			c.Plan.Src = chunkio.StreamSrcs[int(chunk>>6)%len(chunkio.StreamSrcs)]
+		}
 		var out outcome
 		if err := withWatchdog(func() error { return checkCase(c, &out) }); err != nil {
 			ev.Report(t, "fuzz", c, err)
